@@ -345,6 +345,8 @@ func runRich(sc *richScenario) (labels []string, nontrivial bool, err error) {
 	}
 	// checkSet: got is exactly the leaves want, each once, each with the stored value
 	checkSet := func(what string, got []richKV, want []string) error {
+		got = append([]richKV{}, got...) // visits run in map order: name the first discrepancy in path order
+		sort.SliceStable(got, func(i, j int) bool { return got[i].k < got[j].k })
 		seen := map[string]bool{}
 		for _, e := range got {
 			if seen[e.k] {
